@@ -20,22 +20,23 @@ import (
 // ---- plan ----
 
 type HarnessPlan struct {
-	Pkg      string          `json:"pkg"`
-	Fn       string          `json:"fn"`
-	Quick    [][2]int        `json:"quick"`    // [lo,hi] per parameter
-	Thorough [][2]int        `json:"thorough"` // defaults to Quick
-	Steps    int             `json:"steps"`
-	MapOrder int             `json:"mapOrderMax"`
-	Solver   string          `json:"solver"`
-	Sticky   bool            `json:"mapOrderSticky"`
-	BMC bool `json:"bmc"`
-	Race bool `json:"race"`
-	BMCTime int `json:"bmcTimeoutS"`
-	MaxEvents int `json:"maxEvents"`
-	Sched    bool            `json:"schedChoice"`
-	SchedMax int             `json:"maxSchedPoints"`
-	Note     string          `json:"note"`
-	Skip     map[string]bool `json:"-"`
+	Pkg       string          `json:"pkg"`
+	Fn        string          `json:"fn"`
+	Quick     [][2]int        `json:"quick"`    // [lo,hi] per parameter
+	Thorough  [][2]int        `json:"thorough"` // defaults to Quick
+	Steps     int             `json:"steps"`
+	MapOrder  int             `json:"mapOrderMax"`
+	Solver    string          `json:"solver"`
+	Sticky    bool            `json:"mapOrderSticky"`
+	BMC       bool            `json:"bmc"`
+	Race      bool            `json:"race"`
+	BMCTime   int             `json:"bmcTimeoutS"`
+	MaxEvents int             `json:"maxEvents"`
+	Sched     bool            `json:"schedChoice"`
+	SchedMax  int             `json:"maxSchedPoints"`
+	MaxMake   int             `json:"maxMake"`
+	Note      string          `json:"note"`
+	Skip      map[string]bool `json:"-"`
 }
 
 type PropPlan struct {
@@ -80,12 +81,16 @@ func cmdCheck(args []string) {
 	repo := fs.String("repo", "/repo/v4", "module root")
 	vdir := fs.String("verif", "/verif", "verif directory")
 	prop := fs.String("prop", "", "property id")
+	outDir := fs.String("out", "", "directory for evidence/ and replays/ (default: the verif directory)")
 	tier := fs.String("tier", "quick", "quick|thorough")
 	only := fs.String("only", "", "only harnesses whose name contains this")
 	workers := fs.Int("workers", 16, "")
 	noReplay := fs.Bool("noreplay", false, "do not run native replays (development)")
 	budget := fs.Duration("budget", 0, "wall-clock budget for exploration")
 	fs.Parse(args)
+	if *outDir == "" {
+		*outDir = *vdir
+	}
 	t0 := time.Now()
 	seed := 0
 	fmt.Sscan(os.Getenv("VERIF_SEED"), &seed)
@@ -105,7 +110,7 @@ func cmdCheck(args []string) {
 	pr, err := loadProgram(*repo, filepath.Join(*vdir, "harness"))
 	if err != nil {
 		fmt.Printf("INCONCLUSIVE property=%s: the harness overlay does not build against the current tree: %v\n", *prop, err)
-		writeEvidence(*vdir, *prop, *tier, seed, nil, pp, time.Since(t0), 0, []string{"load failure: " + err.Error()}, nil)
+		writeEvidence(*outDir, *prop, *tier, seed, nil, pp, time.Since(t0), 0, []string{"load failure: " + err.Error()}, nil)
 		os.Exit(2)
 	}
 	loadT := time.Since(t0)
@@ -184,7 +189,7 @@ func cmdCheck(args []string) {
 				}
 				return
 			}
-			cfg := sym.RunConfig{PkgPath: pr.ModPath + "/" + pkg, Harness: in.hp.Fn, Params: in.params, MaxSteps: steps, MaxDepth: 300, MaxMake: 64,
+			cfg := sym.RunConfig{PkgPath: pr.ModPath + "/" + pkg, Harness: in.hp.Fn, Params: in.params, MaxSteps: steps, MaxDepth: 300, MaxMake: maxMakeOf(in.hp),
 				Workers: *workers, UsePool: true, SolverBin: in.hp.Solver, Known: known, MapOrderMax: mo, MapOrderSticky: in.hp.Sticky, SchedChoice: in.hp.Sched, MaxSchedPoints: in.hp.SchedMax, Deadline: deadline, MaxPaths: 200000}
 			in.res = pr.Run(cfg)
 			if len(in.res.Unknown) > 0 && len(in.res.Violations) == 0 && in.hp.Solver != "cvc5" {
@@ -287,7 +292,7 @@ func cmdCheck(args []string) {
 				continue
 			}
 			seenLabel[v.Label] = true
-			pending = append(pending, pendingViol{in, v, writeReplay(*vdir, *prop, in, v)})
+			pending = append(pending, pendingViol{in, v, writeReplay(*outDir, *prop, in, v)})
 		}
 	}
 	// replay natively (at most maxReplays; the rest are listed without a verdict)
@@ -339,7 +344,7 @@ func cmdCheck(args []string) {
 			}
 		}
 	}
-	writeEvidence(*vdir, *prop, *tier, seed, insts, pp, time.Since(t0), totalViol, notes, map[string]interface{}{"load_s": loadT.Seconds(), "replayed": replayed})
+	writeEvidence(*outDir, *prop, *tier, seed, insts, pp, time.Since(t0), totalViol, notes, map[string]interface{}{"load_s": loadT.Seconds(), "replayed": replayed})
 	if exit == 0 {
 		fmt.Printf("OK property=%s tier=%s instances=%d wall=%.1fs\n", *prop, *tier, len(insts), time.Since(t0).Seconds())
 	}
@@ -788,4 +793,11 @@ func extraInt(m map[string]interface{}, k string) int {
 		return v
 	}
 	return 0
+}
+
+func maxMakeOf(h HarnessPlan) int {
+	if h.MaxMake > 0 {
+		return h.MaxMake
+	}
+	return 64
 }
